@@ -584,6 +584,8 @@ func runC08(c *Ctx, r *Report) {
 	importRules(c, r, "C05", []string{"R-C05.1"}, "R-C08.12")
 	r.Doc("R-C08.9", "what was written with a link key reads back with it: the sealed-box object holds its own copy of the key (adopted from C18)")
 	importRules(c, r, "C18", []string{"R-C18.9"}, "R-C08.9")
+	r.Doc("R-C08.15", "what PreSign seals is the entry's own link lists, element for element (adopted from C18: a sorted or filtered copy sealed into the links blob reads back as another predecessor list than the one that was written)")
+	importRules(c, r, "C18", []string{"R-C18.2"}, "R-C08.15")
 	r.Doc("R-C08.8", "every setter of the entry and clock types stores its argument in the field its getter returns (the readers fill entries through setters, the writers read them through getters)")
 	{
 		nacc := 0
